@@ -446,6 +446,10 @@ impl<'a> ReMatcher<'a> {
     }
 
     pub(crate) fn is_duplicate_zero_length_match(&self, repeat: &Repeat, position: usize) -> bool {
+        #[cfg(regexml_verif)]
+        if crate::verif::ablated(crate::verif::ABLATE_HISTORY_MEMO) {
+            return false;
+        }
         self.state
             .borrow_mut()
             .history
@@ -503,6 +507,12 @@ impl<'a> ReMatcher<'a> {
         for i in 0..self.startn_len() {
             let start = self.capture_state_startn(i);
             if start >= Some(pos) {
+                #[cfg(regexml_verif)]
+                if crate::verif::ablated(crate::verif::ABLATE_EMPTIED_GROUPS) {
+                    self.state.borrow_mut().capture_state.startn[i] = None;
+                    self.set_capture_state_endn(i, None);
+                    continue;
+                }
                 self.set_capture_state_endn(i, start);
             }
         }
